@@ -649,6 +649,15 @@ def enc(v):
     if type(v).__name__ == "Pt": return {"pt": [v.x, v.y]}
     if hasattr(v, "getflag"): return {"o": type(v).__name__, "flag": v.getflag()}
     return {"o": type(v).__name__}
+def refs(objs):
+    out_ = []
+    for o in objs: out_.append(sys.getrefcount(o))
+    return out_
+def heap(pos, kw):
+    out_ = []
+    for o in pos + list((kw or {}).values()):
+        if not isinstance(o, (int, float, str, bytes, type(None))): out_.append(o)
+    return out_
 calls = json.load(open(callsfile))
 out = open(outfile, "a")
 for c in calls:
@@ -671,8 +680,8 @@ for c in calls:
     L.subj_reset()
     out0 = L.hd_outstanding()
     # objects whose reference count the wrapper can unbalance (scalars are immortal / cached by the interpreter)
-    objs = [o for o in pos + list((kw or {}).values()) if not isinstance(o, (int, float, str, bytes, type(None)))]
-    rc0 = [sys.getrefcount(o) for o in objs]
+    objs = heap(pos, kw)
+    rc0 = refs(objs)
     r = None
     try:
         r = fn(*pos) if kw is None else fn(*pos, **kw)
@@ -682,7 +691,8 @@ for c in calls:
         trace = L.subj_trace().decode("latin-1")
         res = {"i": i, "r": "exc", "type": type(e).__name__, "msg": str(e)[:200]}
     r = None
-    res["refs"] = [sys.getrefcount(o) - b for o, b in zip(objs, rc0)]
+    rc1 = refs(objs)
+    res["refs"] = [a - b for a, b in zip(rc1, rc0)]
     res["trace"] = trace
     res["leak"] = L.hd_outstanding() - out0
     out.write(json.dumps(res) + "\n"); out.flush()
